@@ -21,12 +21,17 @@ def exCfg3d : Cfg Rat :=
   ⟨⟨2, 2, 2⟩, 3, 3, 3, fun a b c => ((if a = 1 then 2 else 1) * (if b = 1 then 2 else 1) * (if c = 1 then 2 else 1) : Rat) / 64,
    .wrap, .wrap, .edge, .sym, .sym, .edge, []⟩
 
-/-- 2×2 2-D domain with a 3-D kernel (1×1×3, the identity: centre weight 1) and a constant upper z face:
-    the input class excluded by hypothesis `h2d` of `filterConv_is_padded_convolution` -/
+/-- 2×2 2-D domain with a 3-D kernel (1×1×3, the identity: centre weight 1) and a constant upper z face
+    (the input class repaired in /repo 6759d43: `domain_sizes` now uses `max(1, nelz)`) -/
 def exCfgQuirk : Cfg Rat :=
   ⟨⟨2, 2, 0⟩, 1, 1, 3, fun _ _ c => if c = 1 then 1 else 0, .sym, .sym, .sym, .sym, .sym, .const 9, []⟩
 
 /-- the field `[3, 5, 11, 13]` -/
 def exField : Nat → Rat := fun i => ([3, 5, 11, 13].getD i 0 : Rat)
+
+/-- witness of the open finding `filterconv-wide-pad-mixed-modes`: 2×1 domain, 7×1×1 kernel selecting the padded
+    position 3 places below the output (pad 3 > 2 elements), lower x face symmetric, upper x face the constant 7 -/
+def exCfgFinding : Cfg Rat :=
+  ⟨⟨2, 1, 0⟩, 7, 1, 1, fun a _ _ => if a = 6 then 1 else 0, .sym, .const 7, .sym, .sym, .sym, .sym, []⟩
 
 end PymotoVerif.Filter
